@@ -62,6 +62,10 @@ structure StructDef where
   discValues : List Int := []
   /-- `@comparer`: (member, transform?) -/
   comparer : List (String × Option String) := []
+  /-- constants (`make_const`) in declaration order: name, type, value as written (a number or an enum member name) -/
+  consts : List (String × String × String) := []
+  /-- `@initializes(member, CONSTANT)` in declaration order -/
+  inits : List (String × String) := []
   deriving DecidableEq, Repr, Inhabited
 
 inductive TypeDef
